@@ -10,6 +10,11 @@ use crate::{
 };
 use tracing::{trace, warn};
 
+#[cfg(feature = "verif-hooks")]
+use crate::verif_hooks::Instant;
+#[cfg(feature = "verif-hooks")]
+use instant::Duration;
+#[cfg(not(feature = "verif-hooks"))]
 use instant::{Duration, Instant};
 use std::collections::vec_deque::Drain;
 use std::collections::{HashMap, HashSet, VecDeque};
@@ -40,6 +45,10 @@ const QUALITY_REPORT_INTERVAL: Duration = Duration::from_millis(200);
 pub const MAX_CHECKSUM_HISTORY_SIZE: usize = 32;
 
 fn millis_since_epoch() -> u128 {
+    #[cfg(feature = "verif-hooks")]
+    if let Some(ms) = crate::verif_hooks::epoch_ms() {
+        return ms;
+    }
     #[cfg(not(target_arch = "wasm32"))]
     {
         std::time::SystemTime::now()
@@ -823,6 +832,30 @@ impl<T: Config> UdpProtocol<T> {
             checksum,
         };
         self.queue_message(MessageBody::ChecksumReport(body));
+    }
+}
+
+#[cfg(feature = "verif-hooks")]
+impl<T: Config> UdpProtocol<T> {
+    pub(crate) fn verif_snapshot(&self) -> crate::verif_hooks::EndpointSnapshot {
+        crate::verif_hooks::EndpointSnapshot {
+            state: match self.state {
+                ProtocolState::Initializing => 0,
+                ProtocolState::Synchronizing => 1,
+                ProtocolState::Running => 2,
+                ProtocolState::Disconnected => 3,
+                ProtocolState::Shutdown => 4,
+            },
+            pending_output: self.pending_output.len(),
+            recv_inputs: self.recv_inputs.len(),
+            pending_checksums: self.pending_checksums.len(),
+            send_queue: self.send_queue.len(),
+            event_queue: self.event_queue.len(),
+            sync_random_requests: self.sync_random_requests.len(),
+            last_recv_frame: self.last_recv_frame(),
+            last_acked_frame: self.last_acked_input.frame,
+            magic: self.magic,
+        }
     }
 }
 
